@@ -164,6 +164,13 @@ pub fn fill_strategy(depth: u32, decoy_tags: Vec<String>) -> BoxedStrategy<Vec<N
         2 => decoy_strategy(decoy_tags.clone()),
         2 => (pick(FILL_VOID.to_vec()), style_strategy(), 0u8..3).prop_map(|(t, st, form)| Node::Elem(make_elem(t, &st, vec![], None, form))),
         1 => (pick(FILL_TAGS.to_vec()), style_strategy()).prop_map(|(t, st)| Node::Elem(make_elem(t, &st, vec![], None, 0))),
+        // elements whose end tag HTML lets authors omit (`<li>a<li>b`, `<p>one<p>two`): a start tag and nothing else, as far
+        // as the filters are concerned (none of these names is ever on a filter path)
+        1 => (pick(vec!["p", "li", "dt", "dd"]), style_strategy()).prop_map(|(t, st)| {
+            let mut e = make_elem(t, &st, vec![], None, 0);
+            e.end = String::new();
+            Node::Elem(e)
+        }),
     ];
     let node = leaf.prop_recursive(depth, 12, 3, |inner| {
         (pick(FILL_TAGS.to_vec()), style_strategy(), prop::collection::vec(inner, 0..3)).prop_map(|(t, st, ch)| Node::Elem(make_elem(t, &st, merge_text(ch), None, 0)))
